@@ -86,14 +86,14 @@ def run(ctx):
             tid += 1
             total_sets += 1
             traces.append({"tid": tid, "meta": {"kind": "state", "n": 4}, "states": [o], "events": evs})
-    # 5-qubit states: sampled (random Clifford circuit, random re-gauging); the synthesis has a rare failure from n = 5 on
-    from drivers import c07
-    for _ in range(400 if ctx.quick else 12000):
-        rows = c07.sampled_tableau_rows(rng, 5, rng.randint(10, 40))[5:]
-        o, evs = events_for(sg.random_regauge(rng, rows))
-        tid += 1
-        total_sets += 1
-        traces.append({"tid": tid, "meta": {"kind": "state", "n": 5}, "states": [o], "events": evs})
+    # 5..7-qubit states: sampled (independent plain-Python sampler, random re-gauging); the greedy Hadamard block of the
+    # synthesis used to fail for about 1 in 4000 generating sets at n = 5 and 1 in 300 at n = 7 (fixed: C11-F1)
+    for n, k in ((5, 300), (6, 100), (7, 30)) if ctx.quick else ((5, 12000), (6, 6000), (7, 3000)):
+        for _ in range(k):
+            o, evs = events_for(sg.random_state_rows(rng, n))
+            tid += 1
+            total_sets += 1
+            traces.append({"tid": tid, "meta": {"kind": "state", "n": n}, "states": [o], "events": evs})
     ctx.extra["generating_sets_fed"] = total_sets
     # graph leg: all labelled graphs n <= 4 (quick) / n <= 5 (thorough)
     ng = 0
